@@ -177,7 +177,7 @@ func runBatch(obs []*Oblig, timeoutS int, all bool) {
 			again = append(again, j)
 		}
 	}
-	if len(again) > 0 && len(again) <= 24 {
+	if len(again) > 0 && (len(again) <= 3 || (loadScale() > 1.25 && len(again) <= 24)) {
 		sem2 := make(chan struct{}, 3)
 		var wg2 sync.WaitGroup
 		for _, j := range again {
@@ -274,7 +274,10 @@ func Discharge(obs []*Oblig, timeoutS int, all bool) []*ObResult {
 		}
 		return n
 	}
-	if starvedNow() > 0 {
+	// (only on an oversubscribed machine: on an idle one a speculative lemma that times out is simply not provable,
+	// and retrying it would multiply the time a check takes on a tree that really violates the property)
+	busy := scale > 1.25
+	if busy && starvedNow() > 0 {
 		softRounds(softT * 4)
 	}
 	runBatch(hard, timeoutS, all)
@@ -292,7 +295,7 @@ func Discharge(obs []*Oblig, timeoutS int, all bool) []*ObResult {
 			starved = true
 		}
 	}
-	if len(failed) > 0 && starved {
+	if busy && len(failed) > 0 && starved {
 		softRounds(softT * 4)
 		runBatch(failed, timeoutS*2, all)
 	}
